@@ -1,4 +1,4 @@
-import Req.H1.BufLine
+import Req.H1.LineSplit
 /-!
 MIME header block reader: `textprotoReader.readMIMEHeader` (textproto_reader.go:231) with
 `readContinuedLineSlice` (:124), `skipSpace` (:179), `mustHaveFieldNameColon` (:321),
